@@ -15,8 +15,9 @@ inductive Discipline where
   /-- every write holds the mutex and is made in one of `ownerFns` (functions of the owning goroutine);
       a read holds the mutex or is made in one of `ownerFns` -/
   | ownerOrGuarded (m : String) (ownerFns : List String)
-  /-- written only in `writers`, which run before the `go` statement that starts the readers -/
-  | prePublication (writers : List String)
+  /-- written only in `writers`, which run before the `go` statement that starts the `readers` (the only
+      functions that read it) -/
+  | prePublication (writers readers : List String)
   /-- accessed through sync/atomic only (the table then shows the address-of / method receiver as a read) -/
   | atomic
 
@@ -38,7 +39,7 @@ def disciplineOf : String → Option Discipline
   | "uts.trailers" => some (.guarded "sts.mu" [])
   | "srv.streams" => some (.guarded "h.mu" ["newHandler"])
   | "proxy.clients" => some (.guarded "p.mutex" ["NewProxy"])
-  | "proxy.conn" => some (.prePublication ["proxyClient.connect", "Proxy.AddClient"])
+  | "proxy.conn" => some (.prePublication ["proxyClient.connect", "Proxy.AddClient"] ["proxyClient.readLoop", "proxyClient.writeLoop"])
   | "demux.conns" => some (.guarded "gsd.conns" ["NewDemux"])
   | "http.conns" => some (.guarded "goh.conns" ["NewGoatOverHttp"])
   | "http.lastActivity" => some .atomic
@@ -54,7 +55,7 @@ def accessOk (a : String × String × String × List String) : Bool :=
   | some (.guarded m ctors) => holds m held || ctors.contains fn
   | some (.ownerOrGuarded m owners) =>
       if rw == "w" then holds m held && owners.contains fn else holds m held || owners.contains fn
-  | some (.prePublication writers) => rw == "r" || writers.contains fn
+  | some (.prePublication writers readers) => if rw == "r" then readers.contains fn else writers.contains fn
   | some .atomic => rw == "r"                       -- never assigned directly
 
 def ownerMutex : String → Option String
